@@ -90,19 +90,29 @@ func (is *indexSearch) isTagKeyExist(tagKey, tagValue, name []byte) (bool, error
 }
 
 func (is *indexSearch) getTSIDBySeriesKey(indexkey []byte) (uint64, error) {
+	return is.getLiveTSIDBySeriesKey(indexkey, nil)
+}
+
+// getLiveTSIDBySeriesKey returns the first series id recorded for the series key that is not in deleted.
+// A series that was dropped (DROP SERIES) and written again owns several key->id items: the items of the
+// dropped ids stay in the index until the purge task removes them, and (ids grow) they sort before the live one.
+func (is *indexSearch) getLiveTSIDBySeriesKey(indexkey []byte, deleted *uint64set.Set) (uint64, error) {
 	ts := &is.ts
 	kb := &is.kb
 	kb.B = append(kb.B[:0], nsPrefixKeyToTSID)
 	kb.B = append(kb.B, indexkey...)
 	kb.B = append(kb.B, kvSeparatorChar)
 	ts.Seek(kb.B)
-	if ts.NextItem() {
+	for ts.NextItem() {
 		if !bytes.HasPrefix(ts.Item, kb.B) {
 			// Nothing found.
 			return 0, io.EOF
 		}
 		v := ts.Item[len(kb.B):]
 		pid := encoding.UnmarshalUint64(v)
+		if deleted != nil && deleted.Has(pid) {
+			continue
+		}
 
 		// Found valid dst.
 		return pid, nil
